@@ -342,7 +342,7 @@ def shard(ctx, col):
         for bucket, detail in fails:
             col.fail(bucket, case, detail)
     try:
-        core.hyp_run(one, st.randoms(use_true_random=False), ctx.budget, ctx.hyp_seed)
+        core.hyp_run(one, st.randoms(use_true_random=True), ctx.budget, ctx.hyp_seed)
     finally:
         syntaximport.cleanup()
 
